@@ -3,30 +3,42 @@ import copy, json
 from vlib import common as C
 from vlib.diff import Case, differential
 from ._jwire import to_wire, from_wire, jeq, F64, hx
+from . import _binn as B
 from . import _rfc as R
 from . import _jgen as G
 
 LEVEL = "proof"
 # C functions this check's models mirror (source-text fingerprints are recorded in the evidence, see translate/funchash.py)
-MODELLED_FUNCS = {'src/json/iwjson.c': ['_jbl_merge_patch_node', 'jbn_merge_patch', 'jbn_merge_patch_from_json', 'jbl_merge_patch', 'jbl_merge_patch_jbl', 'jbn_merge_patch_path']}
+MODELLED_FUNCS = {'src/json/iwjson.c': ['_jbl_merge_patch_node', 'jbn_merge_patch', 'jbn_merge_patch_from_json', 'jbl_merge_patch', 'jbl_merge_patch_jbl', 'jbn_merge_patch_path', '_jbl_node_from_binn', '_jbl_binn_from_node', '_jbl_from_node_impl']}
 MANIFEST = dict(
     level="proof",
     text=("Lean 4 theorems over an executable model of iowow's JSON Merge Patch (the recursive member walk of "
           "_jbl_merge_patch_node and its seven entry points, incl. the path form that wraps a value in nested objects): the "
           "model equals MergePatch(target, patch) of RFC 7386 for every pair of documents, member by member (null deletes, "
-          "objects merge recursively, anything else replaces), and the path form equals merging the wrapped value; the model is "
+          "objects merge recursively, anything else replaces), and the path form equals merging the wrapped value; jbl_merge_patch "
+          "and jbl_merge_patch_jbl are also modelled on the binn BYTES as the composition C14 reader -> merge -> C14 writer -> swap "
+          "(jbl_merge_bytes*): for every holder whose bytes decode to a well-formed document and every patch, the new bytes are the "
+          "writer's encoding of MergePatch(decoded old bytes, patch), decode to it and are well-formed again (iterated over a list of "
+          "patches: jbl_merge_bytes_seq); a result the binary form cannot hold => JBL_ERROR_CREATION; any error => bytes unchanged; the model is "
           "tied to the code by a differential run of jbn_merge_patch (pool and heap), jbn_merge_patch_from_json, jbn_patch_auto, "
           "jbl_merge_patch, jbl_merge_patch_jbl, jbn_merge_patch_path and iwjsreg_merge against the compiled Lean definitions, with an "
-          "independent python RFC 7386 function as oracle; heap mode runs under ASan (double free / use after free)"),
+          "independent python RFC 7386 function as oracle - the two binary entry points also byte for byte (binn bytes in, the "
+          "holder's buffer out, single calls and sequences on one holder; python binn decoder in the oracle); heap mode runs under "
+          "ASan (double free / use after free)"),
     note=("trusted: Lean kernel, harness/generator, python oracle, gcc+ASan/UBSan; modelled not verified: the C control flow of "
-          "the functions named; documents have unique keys (ignoring ASCII case), no NUL bytes; binn encode/decode and JSON "
-          "text print/parse are taken as the identity on such documents (C13, C14); memory ownership of the heap mode is "
+          "the functions named; documents have unique keys (ignoring ASCII case), no NUL bytes (results violating the key "
+          "conditions: byte-level theorems and stream - refused, bytes unchanged); hypotheses of the byte-level theorems: patch "
+          "integers fit int64, strings/keys NUL free (leafOk), encoded result shorter than 2^31-9 bytes; JSON text print/parse of "
+          "the patch is taken as the identity (C13; for jbl_merge_patch_jbl: the text of the patch holder reads back as the "
+          "document it holds, C13/C14 print_agree); memory ownership of the heap mode is "
           "observed by ASan only (leaks are not checked)"),
     technique="Lean 4 proof over executable model + differential correspondence (C harness vs compiled Lean driver) + python RFC 7386 oracle")
 MODULE = "IwModel.Props.C16"
 THEOREMS = ["IwModel.C16.merge_rfc", "IwModel.C16.merge_rfc_absent", "IwModel.C16.merge_nonobject_replaces",
             "IwModel.C16.merge_members", "IwModel.C16.merge_entry_points", "IwModel.C16.merge_patch_root",
-            "IwModel.C16.merge_path", "IwModel.C16.merge_path_root"]
+            "IwModel.C16.merge_path", "IwModel.C16.merge_path_root",
+            "IwModel.C16.jbl_merge_bytes_atomic", "IwModel.C16.merge_result_leafOk", "IwModel.C16.jbl_merge_bytes",
+            "IwModel.C16.jbl_merge_jbl_bytes", "IwModel.C16.jbl_merge_bytes_seq"]
 
 BIN = ("jbl", "jbljbl")
 MODES = ["node", "heap", "njson", "auto", "jbl", "jbljbl"]
@@ -200,7 +212,134 @@ def case_badtext(r):
     return c
 
 
-GENS = [(case_merge, 6), (case_path, 2), (case_badtext, 0.3)]
+# ---- byte-level stream: target (and for jbl_merge_patch_jbl the patch) go in as binn BYTES, the holder's bytes come out ----
+
+def parse_bout(line):
+    w = line.split()
+    rcs = w[0].split(",")
+    if len(w) >= 3 and w[1] == "scalar":
+        return rcs, None, from_wire(w[2:])
+    if len(w) != 2:
+        raise ValueError("unexpected answer " + line[:80])
+    return rcs, bytes.fromhex("" if w[1] == "-" else w[1]), None
+
+
+def make_byte_oracle(target, inbytes, patches):
+    """RFC 7386 on decode(input bytes), patch by patch: a result the binary form can hold must be accepted and the bytes
+    that come out must decode to it; one it cannot hold must be refused with `creation`; when no call succeeded the
+    bytes must be exactly the bytes that went in."""
+    def oracle(out):
+        try:
+            rcs, got, scalar = parse_bout(out[0])
+        except ValueError as e:
+            return "[cls=bad-answer] %s" % e
+        if len(rcs) != len(patches):
+            return "[cls=bad-answer] %d return codes for %d patches" % (len(rcs), len(patches))
+        cur, changed = target, False
+        for i, (patch, rc) in enumerate(zip(patches, rcs)):
+            if not isinstance(cur, (dict, list)):
+                return None
+            exp = R.merge_patch(cur, patch)
+            if B.fits(exp):
+                if rc != "ok":
+                    return "[cls=rejected] call %d: merge patch was rejected with %s; RFC 7386 result %s" % (i, rc, json.dumps(exp, default=repr)[:200])
+                cur, changed = exp, True
+            elif rc == "ok":
+                return "[cls=accepted-unholdable] call %d reported success but the binary form cannot hold %s" % (i, json.dumps(exp, default=repr)[:200])
+        if not changed:
+            if got != inbytes:
+                return "[cls=failed-merge-changed-bytes] no call succeeded (%s) but the holder's bytes changed" % ",".join(rcs)
+            return None
+        if not isinstance(cur, (dict, list)):
+            return None if got is None and jeq(scalar, cur) else "[cls=wrong-result] holder %r, RFC 7386 prescribes the scalar %r" % (scalar if got is None else got.hex()[:80], cur)
+        if got is None:
+            return "[cls=wrong-result] holder is the scalar %r, RFC 7386 prescribes %s" % (scalar, json.dumps(cur, default=repr)[:200])
+        try:
+            val = B.dec(got)
+        except (B.BadBinn, IndexError, ValueError) as e:
+            return "[cls=bytes-malformed] the bytes that came out are not a well-formed document (%s): %s" % (e, got.hex()[:160])
+        if not jeq(val, cur):
+            return "[cls=wrong-result] the bytes decode to %s, RFC 7386 prescribes %s" % (json.dumps(val, default=repr)[:200], json.dumps(cur, default=repr)[:200])
+        return None
+    return oracle
+
+
+def clean_patch(patch, container):
+    if isinstance(patch, F64) or G.integral_f64(patch):
+        return {}
+    if container and not isinstance(patch, (dict, list)):
+        return {}
+    return patch
+
+
+NOFIT_KEYS = ["A", "FOO", "Ab", "aB", "Q", "X", "É", "L" * 255, "L" * 256, "w" * 300]
+
+
+def unholdable_patch(r, target):
+    """a patch whose RFC result has a key over 255 bytes or two keys equal ignoring ASCII case (or just not quite)"""
+    objs = [p for p in G.container_paths(target) if isinstance(R.resolve(target, list(p)), dict)
+            and all(not isinstance(R.resolve(target, list(p[:i])), list) for i in range(len(p)))]
+    p = r.choice(objs) if objs else ()
+    o = R.resolve(target, list(p)) if objs else {}
+    k = r.choice(list(o)) if o and r.random() < 0.6 else None
+    c = r.randrange(4)
+    if k is not None and c < 2:
+        inner = {r.choice([k.upper(), k.capitalize()]): G.scalar(r) if r.random() < 0.8 else 1}
+        if c == 1:
+            inner[k] = None          # the lower-case twin is deleted by the same patch: holdable
+    elif c == 2:
+        inner = {"zz": {"kk": 1, r.choice(["KK", "kK", "kk2"]): 2}}
+    else:
+        inner = {r.choice(NOFIT_KEYS): r.choice([1, {"n1": None}, [None]])}
+    for s in reversed(p):
+        inner = {s: inner}
+    return inner
+
+
+def case_bytes(r):
+    mode = r.choice(["jbl", "jbl", "jbljbl"])
+    target = G.gen_doc(r, depth=r.choice([2, 3, 4]), container=True)
+    k = r.random()
+    if k < 0.7:
+        patch = gen_merge_patch(r, target)
+    elif k < 0.8:
+        patch = G.gen_doc(r, 2, container=(mode == "jbljbl"))
+    elif k < 0.9:
+        patch = unholdable_patch(r, target)
+    else:
+        patch = G.scalar(r) if mode != "jbljbl" else [G.scalar(r)]
+    patch = clean_patch(patch, mode == "jbljbl")
+    inb = B.enc(target, r if r.random() < 0.3 else None)
+    if mode == "jbljbl":
+        try:
+            pw = hx(B.enc(patch, r if r.random() < 0.3 else None))
+        except B.Creation:
+            patch, pw = {}, hx(B.enc({}))
+    else:
+        pw = to_wire(patch)
+    c = MCase("bytes-" + mode, ["bmerge %s %s | %s" % (mode, hx(inb), pw)], make_byte_oracle(target, inb, [patch]))
+    c.meta = ("b" + mode, target, patch)
+    return c
+
+
+def case_bytes_seq(r):
+    target = G.gen_doc(r, depth=r.choice([2, 3]), container=True)
+    cur, patches = target, []
+    for _ in range(r.randrange(2, 6)):
+        if not isinstance(cur, (dict, list)):
+            break
+        patch = clean_patch(unholdable_patch(r, cur) if r.random() < 0.3 else gen_merge_patch(r, cur), False)
+        patches.append(patch)
+        exp = R.merge_patch(cur, patch)
+        if B.fits(exp):
+            cur = exp
+    inb = B.enc(target, r if r.random() < 0.3 else None)
+    c = MCase("bytes-seq", ["bmseq %s | %s" % (hx(inb), " | ".join(to_wire(p) for p in patches))], make_byte_oracle(target, inb, patches))
+    c.meta = ("bseq", target, patches[0])
+    return c
+
+
+GENS = [(case_merge, 6), (case_path, 2), (case_badtext, 0.3), (case_bytes, 2.2), (case_bytes_seq, 0.6)]
 
 
 def gen_cases(r, n):
@@ -261,7 +400,11 @@ def tally(ctx, cases):
                         else:
                             ctx.hist("member:delete-absent" if v is None else "member:new")
         if c.impl:
-            ctx.hist("rc:" + c.impl[0].split()[0])
+            for rc in c.impl[0].split()[0].split(",")[:8]:
+                ctx.hist("rc:" + rc)
+            if c.kind.startswith("bytes"):
+                inhex = c.ops[0].split()[1 if c.kind == "bytes-seq" else 2]
+                ctx.hist("bytes-out:" + ("scalar" if " scalar " in c.impl[0] else "unchanged" if c.impl[0].split()[-1] == inhex else "new"))
 
 
 CHUNK = 1000
@@ -311,10 +454,14 @@ def run(ctx):
                        "jbn_merge_patch_from_json, jbn_patch_auto, jbl_merge_patch, jbl_merge_patch_jbl, jbn_merge_patch_path pool/heap, iwjsreg_merge); "
                        "patches are generated from the target so that members are deleted, merged, replaced across types in both "
                        "directions, added, with nested nulls, empty objects, nulls inside arrays, keys that are prefixes of one another; "
-                       "also non-object patches and non-object targets; distinct = distinct op line; every case performs a merge")
+                       "also non-object patches and non-object targets; byte-level streams: target (and for jbl_merge_patch_jbl the patch) "
+                       "handed over as binn bytes, the holder's buffer compared byte for byte with the composed Lean model, single calls and "
+                       "2-5 merges on one holder, incl. patches whose result the binary form cannot hold (keys of 255/256+ bytes, keys equal "
+                       "ignoring ASCII case); distinct = distinct op line; every case performs a merge")
     ctx.assumptions += ["documents have unique member names (also ignoring ASCII case) and no NUL bytes in keys/strings (what the binary form can hold, C14)",
                         "doubles are not integer-valued (their text form would read back as an integer in the text entry points)",
-                        "heap-mode leaks are not checked (ASan leak detection is off); double free / use after free are"]
+                        "heap-mode leaks are not checked (ASan leak detection is off); double free / use after free are",
+                        "byte-level ops: input buffers are well-formed documents (malformed buffers are C17's); the oracle decodes the output with its own binn reader and compares values, bytes are compared with the Lean model only; a holder whose root became a scalar is compared as a value"]
     selftest_note(ctx)
     ctx.translate()
     ok, drv_ok = ctx.prove(MODULE, THEOREMS)
